@@ -1,5 +1,6 @@
 import Skv.Lemmas.Guard
 import Skv.Props.C12
+import Skv.Lemmas.VCache
 /-!
 # C16 — damaged files are detected, never served as data
 
@@ -48,3 +49,20 @@ example :
     let f := [9, 9, 1, 2, 3, 0, 1, 2, 3, 0, 7, 7]
     readBlock crc f ⟨2, 3⟩ = some [1, 2, 3] ∧ readBlock crc (f.set 3 5) ⟨2, 3⟩ = none ∧
       readBlock crc (f.set 0 5) ⟨2, 3⟩ = some [1, 2, 3] := by decide
+
+
+/-! ## reads through a cache: every read, not only the first -/
+
+/-- **C16 (cached reads).** Through one open store, however often and in whatever order entries are read,
+every read that returns data returns bytes that passed their checksum — a damaged entry answers with an
+error every time, it is never served from the cache. -/
+theorem C16_cached_reads_are_verified (raw : Nat → List Nat) (ok : Nat → Bool) (ids : List Nat)
+    (r : Nat × Option (List Nat)) (hr : r ∈ VCache.gets raw ok {} ids) (v : List Nat) (hv : r.2 = some v) :
+    ok r.1 = true ∧ v = raw r.1 :=
+  gets_ok ids {} (by intro e he; cases he) r hr v hv
+
+/-- the seeded change (value cached before its checksum is verified), kernel-checked: the first read of a
+damaged entry fails, the second one serves the damaged bytes -/
+theorem cache_before_verify_serves_damage :
+    VCache.getsEarly (fun _ => [0xBA, 0xD]) (fun _ => false) {} [7, 7] = [(7, none), (7, some [0xBA, 0xD])] ∧
+    VCache.gets (fun _ => [0xBA, 0xD]) (fun _ => false) {} [7, 7] = [(7, none), (7, none)] := by decide
